@@ -50,7 +50,11 @@ type Floor struct {
 
 // Call the function with the arguments provided.
 func (f *Floor) Call(s *slip.Scope, args slip.List, depth int) slip.Object {
-	return floor(s, f, args, depth)
+	values := floor(s, f, args, depth)
+	values[0] = reduceNumber(values[0])
+	values[1] = reduceNumber(values[1])
+
+	return values
 }
 
 func floor(s *slip.Scope, f slip.Object, args slip.List, depth int) slip.Values {
